@@ -240,6 +240,7 @@ func decideOnce(raw json.RawMessage, trace bool) (res map[string]interface{}) {
 type tracingFunc struct {
 	inner model.PreferenceFunction
 	got   *[]interface{}
+	extra *interface{}
 }
 
 func (t *tracingFunc) Identifier() string                            { return t.inner.Identifier() }
@@ -247,18 +248,30 @@ func (t *tracingFunc) MethodParameters() interface{}                 { return t.
 func (t *tracingFunc) ParseParams(dm *model.DecisionMaker) interface{} { return t.inner.ParseParams(dm) }
 func (t *tracingFunc) Evaluate(dmp *model.DecisionMakingParams) *model.AlternativesRanking {
 	*t.got = append(*t.got, dump(dmp))
+	if evalHook != nil && t.extra != nil {
+		*t.extra = evalHook(dmp)
+	}
 	return t.inner.Evaluate(dmp)
+}
+
+// optional component hook (set by a zz_verif_comp_*.go file through a package-level variable initialiser)
+var evalHook func(dmp *model.DecisionMakingParams) interface{}
+
+func setEvalHook(f func(dmp *model.DecisionMakingParams) interface{}) bool {
+	evalHook = f
+	return true
 }
 
 func decideValue(dm *model.DecisionMaker, trace bool) (res map[string]interface{}) {
 	var stages []*stageSnap
 	var evalInputs []interface{}
+	var evalExtra interface{}
 	bm := &biases
 	fs := funcs
 	if trace {
 		wrapped := make([]model.PreferenceFunction, len(funcs.Functions))
 		for i, f := range funcs.Functions {
-			wrapped[i] = &tracingFunc{inner: f, got: &evalInputs}
+			wrapped[i] = &tracingFunc{inner: f, got: &evalInputs, extra: &evalExtra}
 		}
 		fs = model.PreferenceFunctions{Functions: wrapped}
 	}
@@ -299,6 +312,9 @@ func decideValue(dm *model.DecisionMaker, trace bool) (res map[string]interface{
 		res["resultDump"] = dump(decision.Result)
 		if len(evalInputs) > 0 {
 			res["evalInput"] = evalInputs[0]
+		}
+		if evalExtra != nil {
+			res["cred"] = evalExtra
 		}
 	}
 	return res
